@@ -422,7 +422,7 @@ func c04EncapKey(p *Prog, r *Report, R1 string) {
 	checkWriter(p, r, R1, layoutSpec{name: name, writer: "(~/tokens/type3.EncapKey).Marshal",
 		wterm: "cat(u8(param:0.id), u16(" + kem + "), call<(github.com/cisco/go-hpke.KEMScheme).SerializePublicKey>(param:0.suite.KEM, param:0.publicKey), u16(" + kdf + "), u16(" + aead + "))"})
 	fn, s, succ := checkReader(p, r, R1, layoutSpec{name: name, reader: "~/tokens/type3.UnmarshalEncapKey",
-		reads: []string{"u8->local:*", "u16->local:*", "bytes[len(make(call<(github.com/cisco/go-hpke.KEMScheme).PublicKeySize>(extract<0>(call<github.com/cisco/go-hpke.AssembleCipherSuite>(*)).KEM)))]->local:*", "u16->local:*", "u16->local:*"}})
+		reads: []string{"u8->local:*", "u16->local:*", "bytes[call<(github.com/cisco/go-hpke.KEMScheme).PublicKeySize>(extract<0>(call<github.com/cisco/go-hpke.AssembleCipherSuite>(*)).KEM)]->local:*", "u16->local:*", "u16->local:*"}})
 	if fn == nil {
 		return
 	}
